@@ -882,7 +882,7 @@ Lemma checker_accepts_means cfg0 pre e o post :
                   (forallb negb faults = true ->
                    length trace = 6%nat /\
                    exists cfg, last reads None = Some cfg /\ saved_spec (map fst pre) cfg /\
-                               kept_spec cfg0 (map fst pre) cfg)
+                               kept_spec cfg0 (map fst pre) cfg /\ in_use_spec (map fst pre) cfg)
       | None => forallb negb faults = false
       end
   | Restart, Restored l => restored_spec (map fst pre) l
@@ -900,8 +900,10 @@ Proof.
       unfold completed in Hcomp. apply andb_true_iff in Hcomp as [_ Hlen]. apply Nat.eqb_eq in Hlen.
       split; [exact Hlen|].
       destruct (last reads None) as [cfg|]; [|discriminate].
-      apply andb_true_iff in Hs as [Hs Hk].
-      exists cfg. split; [reflexivity | split; [now apply saved_check_sound | now apply kept_check_sound]].
+      apply andb_true_iff in Hs as [Hs Hiu]. apply andb_true_iff in Hs as [Hs Hk].
+      exists cfg. split; [reflexivity | split; [now apply saved_check_sound | split; [now apply kept_check_sound|]]].
+      intros k v Hin. unfold in_use_check in Hiu. rewrite forallb_forall in Hiu.
+      specialize (Hiu _ Hin). cbn [fst snd] in Hiu. now apply opt_str_eqb_eq in Hiu.
     + apply andb_true_iff in H as [Hnf _]. now apply negb_true_iff in Hnf.
   - cbn [check_one] in H. now apply restored_check_sound.
 Qed.
@@ -1344,12 +1346,21 @@ Proof.
   destruct (Hall r Hr) as [-> | ->]; [now rewrite config_eqb_refl | rewrite config_eqb_refl; apply orb_true_r].
 Qed.
 
+Definition no_annotation (h : list event) : Prop :=
+  Forall (fun e => match e with InUse _ _ => False | _ => True end) h.
+
+Lemma in_use_nil h : no_annotation h -> in_use h [] = [].
+Proof.
+  induction 1 as [|e r He Hr IH]; [reflexivity|].
+  destruct e; cbn [in_use]; try exact IH. destruct He.
+Qed.
+
 Lemma savetick_passes cfg d h now faults :
-  Forall wf_event h -> consistent h -> case_distinct h -> NoDup (keys cfg) ->
+  Forall wf_event h -> consistent h -> case_distinct h -> NoDup (keys cfg) -> no_annotation h ->
   check_one cfg h (SaveTick now faults)
             (snd (step (fst (run (init_sys cfg d) h)) (SaveTick now faults))) = true.
 Proof.
-  intros Hwf Hcons Hdist Hnd. set (y := fst (run (init_sys cfg d) h)).
+  intros Hwf Hcons Hdist Hnd Hna. set (y := fst (run (init_sys cfg d) h)).
   set (w := all_settings (fst (save_state y now []))).
   set (f := disk y).
   change (check_one cfg h (SaveTick now faults)
@@ -1391,6 +1402,7 @@ Proof.
     { etransitivity; [apply last_map with (d := f); unfold save_trace; discriminate|].
       now rewrite (startup_reads _ _ Hlast). }
     rewrite Hl.
+    unfold in_use_check. rewrite (in_use_nil h Hna). cbn [forallb]. rewrite andb_true_r.
     apply andb_true_iff. split; [now apply saved_check_complete | now apply kept_check_complete].
 Qed.
 
@@ -1403,15 +1415,6 @@ Lemma saved_is_current_snoc h e :
   | _ => saved_is_current h
   end.
 Proof. unfold saved_is_current. rewrite rev_unit. destruct e; reflexivity. Qed.
-
-Definition no_annotation (h : list event) : Prop :=
-  Forall (fun e => match e with InUse _ _ => False | _ => True end) h.
-
-Lemma in_use_nil h : no_annotation h -> in_use h [] = [].
-Proof.
-  induction 1 as [|e r He Hr IH]; [reflexivity|].
-  destruct e; cbn [in_use]; try exact IH. destruct He.
-Qed.
 
 (* when the save is current, the main file holds the latest value of every persistent topic *)
 Definition InvK (h : list event) (y : sys) : Prop :=
@@ -1466,7 +1469,7 @@ Proof.
   set (y := fst (run (init_sys cfg d) h)) in *.
   cbn [step snd check_one]. unfold restored_check.
   destruct (saved_is_current h) eqn:Hcur; [|reflexivity]. cbn [negb orb].
-  rewrite (in_use_nil h Hna). cbn [forallb]. rewrite andb_true_r.
+  unfold in_use_restorable. rewrite (in_use_nil h Hna). cbn [filter forallb]. rewrite andb_true_r.
   destruct (HK Hcur) as (c & Hc1 & Hc2). rewrite (startup_reads _ _ Hc1). cbn [snd].
   apply forallb_forall. intros t Ht.
   destruct (persistent_topic t) eqn:Hp; [|reflexivity].
